@@ -2113,3 +2113,80 @@ C13_OPTIMAL_SIZE = dict(
     ],
 )
 ALL += [C13_SAMPLE_SEG, C13_FIXED_SIZE, C13_OPTIMAL_SIZE]
+
+# NPlatePerCellLineSmoother: the defaultdict is keyed by the integer sample ids (ranks of the sorted unique names of `screen`)
+C13_NPLATE_SAMPLE_ID = dict(
+    _RG, cls="NPlatePerCellLineSmoother", func="_get_plate_sample_id", name="src_nplate_get_plate_sample_id",
+    pyparams=["self", "plate"], params=[("s", "screen_t"), ("plate", "bvec")], returns="Z", vars={},
+    prims=[
+        ("__p.unique_sample_ids", "plate_unique_sample_ids {p} s", "list Z", {"p": "bvec"}),
+        _LEN_Z,
+        ("__l[0]", "!first_item {l}", "Z", {"l": "list Z"}),
+    ],
+    raises=[("only valid for one-sample-per-plate designs", 4)],
+)
+C13_NPLATE = dict(
+    _RG, cls="NPlatePerCellLineSmoother", func="_smooth_plates", name="src_nplate_smooth_plates",
+    pyparams=["self", "screen", "rng"], unused_params=["rng"],
+    params=[("min_n_cell_line_plates", "Z"), ("screen", "screen_t")], returns="screen_t",
+    vars={"plate_counts": "dict", "plate": "bvec", "sample_names_by_id": "list name", "sample_id": "Z", "plate_count": "Z",
+          "screen": "screen_t"},
+    prims=[
+        ("self.min_n_cell_line_plates", "min_n_cell_line_plates", "Z"),
+        ("defaultdict(lambda: 0)", "[]", "dict"),
+        ("__s.plates", "plates_of {s}", "list bvec", _ST),
+        # the plates' parent is `screen` (they come from screen.plates, before `screen` is rebound)
+        ("self._get_plate_sample_id(__p)", "!src_nplate_get_plate_sample_id screen' {p}", "Z", {"p": "bvec"}),
+        ("__s.sample_mapping[0]", "sample_names {s}", "list name", _ST),     # the unique sample names, by id
+        ("__s.sample_names != __n", "sample_name_ne {s} {n}", "bvec", {"s": "screen_t", "n": "name"}),
+        ("__l[__i]", "!list_get {l} {i}", "name", {"l": "list name", "i": "Z"}),
+        ("__s.subset(__v)", "subset_of {s} {v}", "subset_t", {"s": "screen_t", "v": "bvec"}),
+        ("__s.to_screen()", "to_screen {s}", "screen_t", {"s": "subset_t"}),
+    ],
+    ignore=["logger.info(__a)"],
+)
+
+# BatchieEnsemblePlateSmoother._smooth_plates: each call is the translated wrapper smooth_plates (core.py) around the translated
+# _smooth_plates of the class the source names, with the constructor argument the source passes
+_SM = {"s": "screen_t"}
+C13_ENSEMBLE = dict(
+    _RG, cls="BatchieEnsemblePlateSmoother", func="_smooth_plates", name="src_ensemble_smooth_plates",
+    pyparams=["self", "screen", "rng"],
+    params=[("min_size", "Z"), ("n_iterations", "Z"), ("min_n_cell_line_plates", "Z"), ("screen", "screen_t"), ("ds", "list draw"),
+            ("fuel", "nat")],
+    returns="screen_t", return_state=["ds"], vars={"screen": "screen_t"},
+    state_calls=[
+        ("MergeMinPlateSmoother(min_size=self.min_size).smooth_plates(__s, rng)", ["ds"],
+         "src_smooth_plates (fun s__ d__ => src_merge_min_smooth_plates min_size s__ d__ fuel) {s} ds", "screen_t", _SM),
+        ("MergeTopBottomPlateSmoother(n_iterations=self.n_iterations).smooth_plates(__s, rng)", ["ds"],
+         "src_smooth_plates (fun s__ d__ => dor r__ <- src_merge_tb_smooth_plates n_iterations s__; Ok (r__, d__)) {s} ds", "screen_t", _SM),
+        ("OptimalSizeSmoother().smooth_plates(__s, rng)", ["ds"],
+         "src_smooth_plates src_optimal_size_smooth_plates {s} ds", "screen_t", _SM),
+        ("NPlatePerCellLineSmoother(min_n_cell_line_plates=self.min_n_cell_line_plates).smooth_plates(__s, rng)", ["ds"],
+         "src_smooth_plates (fun s__ d__ => dor r__ <- src_nplate_smooth_plates min_n_cell_line_plates s__; Ok (r__, d__)) {s} ds",
+         "screen_t", _SM),
+    ],
+)
+
+# PlatePermutationPlateGenerator._generate_plates
+C13_PLATE_PERMUTATION = dict(
+    _RG, cls="PlatePermutationPlateGenerator", func="_generate_plates", name="src_plate_permutation_generate_plates",
+    pyparams=["self", "screen", "rng"],
+    params=[("force", "opt list name"), ("screen", "screen_t"), ("ds", "list draw")], returns="screen_t", return_state=["ds"],
+    vars={"selection_vector": "bvec", "to_permute": "screen_t", "non_permuted": "opt screen_t", "new_plate_names": "list name",
+          "permuted": "screen_t"},
+    prims=[
+        ("self.force_include_plate_names", "force", "opt list name"),
+        ("~np.isin(__s.plate_names, __f)", "plate_not_in {s} {f}", "bvec", {"s": "screen_t", "f": "list name"}),
+        ("np.ones(__s.size, dtype=bool)", "repeat true (length {s})", "bvec", _ST),
+        ("np.any(~__v)", "existsb negb {v}", "bool", {"v": "bvec"}),
+        ("~__v", "map negb {v}", "bvec", {"v": "bvec"}),
+        ("__s.subset(__v)", "subset_of {s} {v}", "subset_t", {"s": "screen_t", "v": "bvec"}),
+        ("__s.to_screen()", "to_screen {s}", "screen_t", {"s": "subset_t"}),
+        ("__s.plate_names", "map r_plate {s}", "list name", _ST),
+        (_SCREEN_RENAMED, "!screen_renamed {s} {n}", "screen_t", {"s": "screen_t", "n": "list name"}),
+        ("__a.combine(__b)", "!combine_screens {a} {b}", "screen_t", {"a": "screen_t", "b": "screen_t"}),
+    ],
+    state_calls=[("rng.permutation(__a)", ["ds"], "permutation_names {a} ds", "list name", {"a": "list name"})],
+)
+ALL += [C13_NPLATE_SAMPLE_ID, C13_NPLATE, C13_ENSEMBLE, C13_PLATE_PERMUTATION]
